@@ -222,10 +222,46 @@ def o_fieldcov_dimension(prog, res):
     res.touched(f)
     dst, src = param(f, 0), param(f, 1)
     rec = prog.record("StorageDimension")
+    # a whole-record assignment  *dst = *src  copies every scalar member; the
+    # String members it copies are shallow and must be detached and deep-copied
+    # on every path afterwards (O-ALIAS below)
+    whole = [(b.id, i, s) for b, i, s in f.all_stmts() for lv, op, rhs, w in ir.writes_of(s)
+             if op == "=" and ir.strip(lv).get("k") == "deref" and ir.strip(ir.strip(lv)["e"]).get("id") == dst["id"]
+             and isinstance(ir.strip(rhs), dict) and ir.strip(rhs).get("k") == "deref" and ir.strip(ir.strip(rhs)["e"]).get("id") == src["id"]]
+    succ = {(b.id, i) for b, i, s in f.all_stmts() if s.get("k") == "ret" and not ir.is_const(s.get("e"), 0)}
+    for bid, i0, s0 in whole:
+        for fld in rec["fields"]:
+            if fld.get("r") != "String":
+                continue
+            m = fld["n"]
+
+            def deep(q, m=m):
+                return any(c.get("fn") == "copy_string" and is_param_path(c["args"][0], dst["id"]) == m and is_param_path(c["args"][1], src["id"]) == m
+                           for c in ir.calls_in(q))
+
+            def detach(q, m=m):
+                for lv, op, rhs, w in ir.writes_of(q):
+                    p_ = ir.ap(lv) or ""
+                    if op == "=" and (p_.endswith("->%s.str" % m) and ir.is_const(rhs, 0) or
+                                      p_.endswith("->%s.is_ref" % m) and not ir.is_const(rhs, 0) or
+                                      p_.endswith("->%s" % m) and isinstance(ir.strip(rhs), dict) and ir.strip(rhs).get("k") == "init"):
+                        return True
+                return any(c.get("fn") == "memset" and (ir.ap(ir.strip(c["args"][0]).get("e")) or "").endswith("->%s" % m) for c in ir.calls_in(q)
+                           if isinstance(ir.strip(c["args"][0]), dict) and ir.strip(c["args"][0]).get("k") == "addr")
+            ok1 = bool(succ) and paths.all_paths_pass(f, (bid, i0), succ, deep)[0]
+            copies = {(b.id, i) for b, i, s in f.all_stmts() if deep(s)}
+            ok2 = bool(copies) and all(paths.all_paths_pass(f, (bid, i0), {c_}, detach)[0] for c_ in copies)
+            inst = "storage_dimension_copy: after *dst = *src the shared %s is detached and deep-copied on every path" % m
+            if ok1 and ok2:
+                res.oblige("O-FIELDCOV", inst, True, "", f.loc(s0))
+            else:
+                res.fail("O-FIELDCOV", inst, "O-FIELDCOV|storage_dimension_copy|alias-%s" % m, f.loc(s0),
+                         "storage_dimension_copy assigns the whole record (*dst = *src), which makes dst->%s share the source's heap buffer as an owned string, and can return success without detaching it and deep-copying: "
+                         "source and copy free the same buffer" % m)
     for fld in rec["fields"]:
         m = fld["n"]
         inst = "storage_dimension_copy: field %s" % m
-        ok = False
+        ok = bool(whole) and fld.get("r") != "String"
         for b, i, s in f.all_stmts():
             for c in ir.calls_in(s):
                 if c.get("fn") == "copy_string" and is_param_path(c["args"][0], dst["id"]) == m and is_param_path(c["args"][1], src["id"]) == m:
